@@ -87,6 +87,9 @@ pub struct FaultReader<'a> {
     fail_at: usize,
     kind: ErrorKind,
     chunk: usize,
+    /// fail only once: afterwards the rest of the data is delivered normally (a swallowed
+    /// error then goes unnoticed unless the decoder reports it)
+    pub one_shot: bool,
     pub fired: u64,
 }
 
@@ -98,12 +101,21 @@ impl<'a> FaultReader<'a> {
             fail_at,
             kind,
             chunk: chunk.max(1),
+            one_shot: false,
             fired: 0,
         }
     }
 
     fn limit(&self) -> usize {
-        self.fail_at.min(self.data.len())
+        if self.one_shot && self.fired > 0 {
+            self.data.len()
+        } else {
+            self.fail_at.min(self.data.len())
+        }
+    }
+
+    fn must_fail(&self) -> bool {
+        self.pos >= self.fail_at && !(self.one_shot && self.fired > 0)
     }
 
     fn fault(&mut self) -> io::Error {
@@ -114,7 +126,7 @@ impl<'a> FaultReader<'a> {
 
 impl Read for FaultReader<'_> {
     fn read(&mut self, buf: &mut [u8]) -> io::Result<usize> {
-        if self.pos >= self.fail_at {
+        if self.must_fail() {
             return Err(self.fault());
         }
         let n = (self.limit() - self.pos).min(buf.len()).min(self.chunk);
@@ -126,7 +138,7 @@ impl Read for FaultReader<'_> {
 
 impl BufRead for FaultReader<'_> {
     fn fill_buf(&mut self) -> io::Result<&[u8]> {
-        if self.pos >= self.fail_at {
+        if self.must_fail() {
             return Err(self.fault());
         }
         let end = (self.pos + self.chunk).min(self.limit());
